@@ -93,6 +93,17 @@ pub const LEAVES: &[Leaf] = &[
     leaf("mapfile -t arr < <(simseq 2)"),
     leaf("time -p true 2>/dev/null"),
     leaf("! simseq 2 | simexit 1 drain"),
+    leaf("xtrue"),
+    leaf("xexit 3"),
+    leaf("V=x xexit 2"),
+    leaf("xseq 3 | xhead 1 > /dev/null"),
+    leaf("xseq 40 | xhead 1 | xcat > /dev/null"),
+    leaf("xcat < nonexistent_file"),
+    leaf("x=$(xseq 2 | xcat)"),
+    leaf("xcat < /dev/null > /nonexistent_dir_c18/x"),
+    leaf("xsleep 1 & wait"),
+    leaf("fcat < /dev/null | xcat | fcat > /dev/null"),
+    leaf("xcat <(xseq 2) < /dev/null"),
     Leaf { text: "coproc { simexit 2; }; wait", fatal: false, coproc: true },
     Leaf { text: "coproc CP { :; }; wait", fatal: false, coproc: true },
 ];
@@ -257,6 +268,7 @@ fn res_diff(a: &Resources, b: &Resources) -> Vec<String> {
     cmp!(proc_fds);
     cmp!(jobs);
     cmp!(traps_active);
+    cmp!(children_unreaped);
     d
 }
 
@@ -503,7 +515,7 @@ impl Check for C18 {
     fn components(&self) -> Value {
         json!({
             "real": ["brush-core env.rs ScopeGuard / scopes, callstack.rs frames, commands.rs post_execute / invoke_shell_function, shell/execution.rs source_file push/pop, openfiles.rs Arc handles, interp.rs redirects/process substitution/coproc/here-documents, jobs.rs"],
-            "stub": ["pipes between tasks -> simulated pipes (live endpoint counts are exact); here-document pipes and opened files are real descriptors counted through /proc/self/fd", "external children (zombies) are not simulated: `no unreaped children` is decided for in-process tasks only (a task that can never finish is reported)", "brush-core/src/sys/tokio_process.rs and processes.rs are not exercised"]
+            "stub": ["pipes between tasks -> simulated pipes (live endpoint counts are exact); here-document pipes and opened files are real descriptors counted through /proc/self/fd", "external children are simulated processes (real path search, compose_std_command, ChildProcess::wait/poll; no fork/exec): `no unreaped children` is the count of simulated children whose exit status was never collected, sampled with the other resources", "brush-core/src/sys/tokio_process.rs (real fork/exec and kernel reaping) is not exercised"]
         })
     }
     fn assumptions(&self) -> Vec<String> {
